@@ -451,6 +451,16 @@ def setup_jax(x64=True):
     return jax
 
 
+def release_jit(i, every=40):
+    """every case builds a structurally new environment / policy and therefore new XLA programs; drop them regularly so that
+    long (thorough) runs do not accumulate thousands of compiled executables (the CPU client eventually crashes)"""
+    if i % every == every - 1:
+        import gc
+        import jax
+        jax.clear_caches()
+        gc.collect()
+
+
 def dyadic(rng, lo=-16, hi=16, den=4):
     """a dyadic rational k/den with k in [lo, hi] as a Python float"""
     return float(rng.integers(lo, hi + 1)) / den
